@@ -96,7 +96,16 @@ def layer_files(ctx, iter_xml):
 # markup grammar for the identity layer
 NAMES = ['p', 'div', 'B', 'x-y', 'é', 'a1', 'br', 'li', 'input', '_u', 'a.b', 'Td', 'ns:el']
 ANAMES = ['a', '\u0663x', 'Class', 'data-x', 'é', 'on_click', 'a.b', '@click', 'xml:lang', 'b', 'c', 'D', 'data-a-b', 'n', 'r', 't',
-          'nt', 'rn', 'tr', 'href']
+          'nt', 'rn', 'tr', 'href', 'data-xml-lang', 'data-xmlns-q', 'data-ns-icon', 'data-tal', 'data--x']
+
+# configurations under which a statement-free document still has to render to itself (none of them is documented
+# to touch unmarked markup; trim_attribute_space is, and stays out)
+IDENTITY_CONFIGS = [
+    {}, {}, {'enable_data_attributes': True}, {'enable_comment_interpolation': False}, {'strict': False},
+    {'implicit_i18n_translate': False, 'implicit_i18n_attributes': ['title']}, {'boolean_attributes': {'zz'}},
+    {'restricted_namespace': False}, {'trim_attribute_space': False},
+    {'enable_data_attributes': True, 'strict': False, 'enable_comment_interpolation': False},
+]
 WS = [' ', '  ', '\n', '\t', ' \n ', '\r\n', '\r']
 
 
@@ -296,12 +305,16 @@ def slash_in_unquoted_value_explains(src):
         return False
 
 
-def check_identity(ctx, src, knobs=()):
+def check_identity(ctx, src, knobs=(), cfg=None):
     from chameleon import PageTemplate
     from chameleon.exc import TemplateError
     exp = expected_identity(src)
+    cfg = cfg or {}
+    if cfg:
+        ctx.cover('identity-configurations', ','.join(sorted(cfg)))
+        ctx.mon('identity-compared-under-options')
     try:
-        got = PageTemplate(src)()
+        got = PageTemplate(src, **cfg)()
     except TemplateError as e:
         ctx.cover('rejected', type(e).__name__)
         ctx.case(key=None, nontrivial=False)
@@ -324,7 +337,7 @@ def check_identity(ctx, src, knobs=()):
         ctx.violation('identity-diff-in-' + kind,
                       'statement-free document does not render to itself: at offset %d expected %r, got %r'
                       % (j, exp[max(0, j - 20):j + 20], got[max(0, j - 20):j + 20]),
-                      {'kind': 'identity', 'src': src})
+                      {'kind': 'identity', 'src': src, 'cfg': {k: sorted(v) if isinstance(v, set) else v for k, v in cfg.items()}})
         return False
     return True
 
@@ -341,7 +354,7 @@ def layer_identity(ctx, n):
         for k in g.knobs:
             ctx.cover('lexical-knobs', k)
         try:
-            check_identity(ctx, d, g.knobs)
+            check_identity(ctx, d, g.knobs, rng.choice(IDENTITY_CONFIGS))
         except Exception as e:
             if slash_in_unquoted_value_explains(d):
                 ctx.violation('identity-diff-in-document-with-slash-in-unquoted-attribute-value',
@@ -511,11 +524,14 @@ def replay(data):
         if data.get('kind') == 'mixed':
             exp = PROBE.sub(lambda m: PROBE_VALUES[m.group(1)], exp)
             kw = PROBE_VALUES
+        cfg = dict(data.get('cfg') or {})
+        if 'boolean_attributes' in cfg:
+            cfg['boolean_attributes'] = set(cfg['boolean_attributes'])
         try:
-            got = PageTemplate(src)(**kw)
+            got = PageTemplate(src, **cfg)(**kw)
         except Exception as e:
             got = '%s: %s' % (type(e).__name__, e)
-        text = 'source   %r\nexpected %r\nrendered %r' % (src, exp, got)
+        text = 'source   %r\noptions  %r\nexpected %r\nrendered %r' % (src, cfg, exp, got)
         if got != exp:
             ctx.violation('identity', 'differs')
     return bool(ctx.violations), text
